@@ -1,11 +1,26 @@
 package rules
 
+// K5: the textual form. Nothing here looks at the statements of the parsers: String() and Parse*() are
+// *evaluated* by the abstract interpreter (c10_interp*.go) on abstract ids and abstract texts.
+//
+//   format@X.String kind=k       String() of the K2 id of kind k is kind "/" dec(ref) [":" dec(version) | ":" marker],
+//                                the marker form exactly when the version is 0
+//   roundtrip@ParseX kind=k      ParseX(String(id)) == (id, nil) for every text form String() produces
+//   optional-version@ParseX      kind/ref without a version part parses to the id with version 0
+//   arity@ParseX split on / , :  texts with 1..N parts: exactly 2 `/`-parts and 1 or 2 `:`-parts are accepted
+//   errors@ParseX ...            a reference / version part that is not a number gives a non-nil error
+//   unknown-kind@ParseX ...      a kind text outside the kinds of X (any other text, the four non-element kinds,
+//                                every string constant the code compares a text with) gives a non-nil error
+// A "generic" text stands for every string the code cannot tell apart from it: texts are only split, compared
+// with constants, converted and parsed, so its behaviour is that of any text not equal to a compared constant;
+// the compared constants themselves are collected during the evaluation and tried one by one.
+
 import (
 	"fmt"
-	"go/ast"
 	"go/token"
 	"go/types"
 	"sort"
+	"strconv"
 	"strings"
 
 	"osmcheck/core"
@@ -17,26 +32,60 @@ const (
 	c10Sep2 = ":"
 )
 
-const c10UnknownKindText = "\x00c10-not-a-kind"
-
-type c10Def struct {
-	rhs ast.Expr
-	idx int // >= 0: idx-th value of a multi-value right-hand side
-	at  ast.Node
+func c10IsError(t types.Type) bool {
+	nt, ok := t.(*types.Named)
+	return ok && nt.Obj().Pkg() == nil && nt.Obj().Name() == "error"
 }
 
 type c10Parser struct {
-	m        *c10Model
-	fi       *FuncInfo
-	packed   string
-	strFi    *FuncInfo
-	param    types.Object
-	defs     map[types.Object][]c10Def
-	zeroDecl map[types.Object]bool
-	par      map[ast.Node]ast.Node
-	dash     string // literal String() prints instead of version 0 ("" when none)
-	kindText string // hook input
-	hookDeep int
+	m      *c10Model
+	fi     *FuncInfo
+	packed string
+	strFi  *FuncInfo
+	ref    c10Vec // the reference as String() prints it / the parser reads it
+	ver    c10Vec
+	marker string // literal String() prints instead of version 0 ("" when none)
+	forms  map[*c10Kind][]c10Form
+}
+
+// c10Form is one textual form String() produces for an id.
+type c10Form struct {
+	text     c10Val
+	zeroVer  bool // produced under the assumption version == 0
+	form     string
+	describe string
+}
+
+func c10Parsers(m *c10Model, anchors bool) []*c10Parser {
+	r := m.r
+	var out []*c10Parser
+	for _, packed := range []string{"ObjectID", "ElementID", "FeatureID"} {
+		fi := findFunc(m.pk, "Parse"+packed)
+		if fi == nil {
+			if anchors {
+				r.Anchor("Parse" + packed)
+			}
+			continue
+		}
+		sig := fi.Obj.Type().(*types.Signature)
+		if sig.Params().Len() != 1 || !m.ev.isString(sig.Params().At(0).Type()) || sig.Results().Len() != 2 || m.localName(sig.Results().At(0).Type()) != packed || !c10IsError(sig.Results().At(1).Type()) {
+			if anchors {
+				r.Anchor("Parse" + packed + " as func(string) (" + packed + ", error)")
+			}
+			continue
+		}
+		p := &c10Parser{m: m, fi: fi, packed: packed, strFi: m.method(packed, "String"), forms: map[*c10Kind][]c10Form{}}
+		if p.strFi == nil {
+			if anchors {
+				r.Anchor(packed + ".String")
+			}
+			continue
+		}
+		p.ref = m.refInput(types.Typ[types.Int64]).V
+		p.ver = m.verInput(types.Typ[types.Int]).V
+		out = append(out, p)
+	}
+	return out
 }
 
 func c10K5(r *core.R) {
@@ -44,1053 +93,627 @@ func c10K5(r *core.R) {
 	if m == nil {
 		return
 	}
-	for _, packed := range []string{"ObjectID", "ElementID", "FeatureID"} {
-		fi := findFunc(m.pk, "Parse"+packed)
-		if fi == nil {
-			r.Anchor("Parse" + packed)
-			continue
-		}
-		sig := fi.Obj.Type().(*types.Signature)
-		if sig.Params().Len() != 1 || sig.Results().Len() != 2 || m.localName(sig.Results().At(0).Type()) != packed || !c10IsError(sig.Results().At(1).Type()) {
-			r.Anchor("Parse" + packed + " as func(string) (" + packed + ", error)")
-			continue
-		}
-		p := &c10Parser{m: m, fi: fi, packed: packed, strFi: m.method(packed, "String"), param: sig.Params().At(0),
-			defs: map[types.Object][]c10Def{}, zeroDecl: map[types.Object]bool{}, par: parentsOf(r.P, fi)}
-		if p.strFi == nil {
-			r.Anchor(packed + ".String")
-			continue
-		}
-		p.collectDefs()
-		p.checkFormat()
-		p.checkErrors()
-		p.checkArity()
-		p.checkVersionPart()
+	for _, p := range c10Parsers(m, true) {
+		p.checkFormat(true)
 		p.checkRoundTrip()
+		p.checkArity()
+		p.checkRejects()
 	}
 	r.Stat("inlined_calls", m.ev.Inlined)
 }
 
-func c10IsError(t types.Type) bool {
-	nt, ok := t.(*types.Named)
-	return ok && nt.Obj().Pkg() == nil && nt.Obj().Name() == "error"
-}
-
 func (p *c10Parser) name() string { return p.fi.Name() }
-
-func (p *c10Parser) collectDefs() {
-	info := p.m.info
-	obj := func(e ast.Expr) types.Object {
-		id, ok := ast.Unparen(e).(*ast.Ident)
-		if !ok || id.Name == "_" {
-			return nil
-		}
-		if o := info.Defs[id]; o != nil {
-			return o
-		}
-		return info.Uses[id]
-	}
-	ast.Inspect(p.fi.Decl.Body, func(n ast.Node) bool {
-		switch x := n.(type) {
-		case *ast.AssignStmt:
-			for i, l := range x.Lhs {
-				o := obj(l)
-				if o == nil {
-					continue
-				}
-				switch {
-				case x.Tok != token.DEFINE && x.Tok != token.ASSIGN:
-					p.defs[o] = append(p.defs[o], c10Def{rhs: x.Rhs[0], idx: -1, at: x}, c10Def{rhs: x.Rhs[0], idx: -1, at: x})
-				case len(x.Rhs) == len(x.Lhs):
-					p.defs[o] = append(p.defs[o], c10Def{rhs: x.Rhs[i], idx: -1, at: x})
-				case len(x.Rhs) == 1:
-					p.defs[o] = append(p.defs[o], c10Def{rhs: x.Rhs[0], idx: i, at: x})
-				}
-			}
-		case *ast.IncDecStmt:
-			if o := obj(x.X); o != nil {
-				p.defs[o] = append(p.defs[o], c10Def{rhs: x.X, idx: -1, at: x}, c10Def{rhs: x.X, idx: -1, at: x})
-			}
-		case *ast.ValueSpec:
-			for i, nm := range x.Names {
-				o := info.Defs[nm]
-				if o == nil {
-					continue
-				}
-				if len(x.Values) == 0 {
-					p.zeroDecl[o] = true
-				} else if len(x.Values) == len(x.Names) {
-					p.defs[o] = append(p.defs[o], c10Def{rhs: x.Values[i], idx: -1, at: x})
-				}
-			}
-		case *ast.RangeStmt:
-			for _, e := range []ast.Expr{x.Key, x.Value} {
-				if e != nil {
-					if o := obj(e); o != nil {
-						p.defs[o] = append(p.defs[o], c10Def{rhs: x.X, idx: -1, at: x}, c10Def{rhs: x.X, idx: -1, at: x})
-					}
-				}
-			}
-		}
-		return true
-	})
-}
-
-// origin describes where the value of e comes from, following locals with a single definition.
-func (p *c10Parser) origin(e ast.Expr, depth int) string {
-	info := p.m.info
-	if depth > 16 {
-		return "?deep"
-	}
-	e = ast.Unparen(e)
-	if s, ok := constString(info, e); ok {
-		return fmt.Sprintf("%q", s)
-	}
-	if v, ok := constInt(info, e); ok {
-		return fmt.Sprint(v)
-	}
-	switch x := e.(type) {
-	case *ast.Ident:
-		o := objOf(info, x)
-		if o == types.Object(p.param) {
-			return "arg"
-		}
-		ds := p.defs[o]
-		if len(ds) != 1 {
-			return fmt.Sprintf("?%s(%d definitions)", x.Name, len(ds))
-		}
-		s := p.origin(ds[0].rhs, depth+1)
-		if ds[0].idx >= 0 {
-			s += fmt.Sprintf("#%d", ds[0].idx)
-		}
-		return s
-	case *ast.IndexExpr:
-		if k, ok := constInt(info, x.Index); ok {
-			return p.origin(x.X, depth+1) + fmt.Sprintf("[%d]", k)
-		}
-		return "?index"
-	case *ast.CallExpr:
-		if ftv, ok := info.Types[x.Fun]; ok && ftv.IsType() && len(x.Args) == 1 {
-			return p.origin(x.Args[0], depth+1)
-		}
-		fn := callee(info, x)
-		switch {
-		case isPkgFunc(fn, "strings", "Split") && len(x.Args) == 2:
-			if sep, ok := constString(info, x.Args[1]); ok {
-				return fmt.Sprintf("split(%s,%q)", p.origin(x.Args[0], depth+1), sep)
-			}
-		case isPkgFunc(fn, "strconv", "ParseInt") && len(x.Args) == 3:
-			if base, ok := constInt(info, x.Args[1]); ok {
-				return fmt.Sprintf("parseint%d(%s)", base, p.origin(x.Args[0], depth+1))
-			}
-		case isPkgFunc(fn, "strconv", "Atoi") && len(x.Args) == 1:
-			return fmt.Sprintf("parseint10(%s)#0", p.origin(x.Args[0], depth+1))
-		}
-		if fn != nil {
-			return "?call " + fn.FullName()
-		}
-	}
-	return "?"
-}
-
-func (p *c10Parser) split1() string { return fmt.Sprintf("split(arg,%q)", c10Sep1) }
-func (p *c10Parser) split2() string {
-	return fmt.Sprintf("split(%s[1],%q)", p.split1(), c10Sep2)
-}
-func (p *c10Parser) typeOrigin() string { return p.split1() + "[0]" }
-func (p *c10Parser) refOrigin() string {
-	if p.packed == "FeatureID" {
-		return "parseint10(" + p.split1() + "[1])#0"
-	}
-	return "parseint10(" + p.split2() + "[0])#0"
-}
-func (p *c10Parser) verOrigin() string {
-	if p.packed == "FeatureID" {
-		return "-"
-	}
-	return "parseint10(" + p.split2() + "[1])#0"
-}
-
-// hook feeds the abstract inputs into the parser's expressions by provenance.
-func (p *c10Parser) hook(e ast.Expr) (c10Val, bool) {
-	m := p.m
-	if p.hookDeep > 24 {
-		return c10Val{}, false
-	}
-	p.hookDeep++
-	defer func() { p.hookDeep-- }()
-	t := m.info.TypeOf(e)
-	switch p.origin(e, 0) {
-	case p.typeOrigin():
-		return c10StrVal(p.kindText), true
-	case p.refOrigin():
-		return m.refInput(t), true
-	case p.verOrigin():
-		return m.verInput(t), true
-	}
-	if id, ok := e.(*ast.Ident); ok {
-		ds := p.defs[objOf(m.info, id)]
-		if len(ds) == 1 {
-			v := m.ev.expr(ds[0].rhs, c10Env{}, 0)
-			if ds[0].idx >= 0 {
-				if v.K == c10VTuple && ds[0].idx < len(v.Args) {
-					return v.Args[ds[0].idx], true
-				}
-				return m.ev.unknownOf(t, "value #"+fmt.Sprint(ds[0].idx)+" of "+c10Src(m.r, ds[0].rhs)+" is not tracked ("+v.Why+")"), true
-			}
-			return v, true
-		}
-	}
-	return c10Val{}, false
-}
 
 // ---------------------------------------------------------------------------
 // String() format
 
-// c10ParseFormat splits a format into plain verbs and the literals around them.
-func c10ParseFormat(f string) (verbs []byte, lits []string, ok bool) {
-	cur := ""
-	for i := 0; i < len(f); i++ {
-		if f[i] != '%' {
-			cur += string(f[i])
-			continue
-		}
-		if i+1 >= len(f) || !(f[i+1] >= 'a' && f[i+1] <= 'z') {
-			return nil, nil, false
-		}
-		verbs = append(verbs, f[i+1])
-		lits = append(lits, cur)
-		cur = ""
-		i++
+func c10IsZero(v c10Vec) bool { u, ok := v.constant(); return ok && u == 0 }
+
+// c10ZeroTest recognises a test of the version against zero: ver == 0, ver != 0, ver > 0, ver < 1, 0 < ver, ...
+// (versions are non-negative). It returns whether the comparison being true means "version is zero".
+func c10ZeroTest(cm *c10Cmp, ver c10Vec) (zeroWhenTrue bool, ok bool) {
+	if cm == nil || cm.L.K != c10VInt || cm.R.K != c10VInt {
+		return false, false
 	}
-	lits = append(lits, cur)
-	return verbs, lits, true
+	l, rr, op := cm.L, cm.R, cm.Op
+	if rr.V.sameLanes(ver) {
+		l, rr = rr, l
+		op = map[token.Token]token.Token{token.LSS: token.GTR, token.GTR: token.LSS, token.LEQ: token.GEQ, token.GEQ: token.LEQ, token.EQL: token.EQL}[op]
+	}
+	if !l.V.sameLanes(ver) {
+		return false, false
+	}
+	c, isConst := rr.V.signedConst()
+	if !isConst {
+		return false, false
+	}
+	switch {
+	case op == token.EQL && c == 0:
+		zeroWhenTrue = true
+	case op == token.LSS && c == 1, op == token.LEQ && c == 0:
+		zeroWhenTrue = true
+	case op == token.GTR && c == 0, op == token.GEQ && c == 1:
+		zeroWhenTrue = false
+	default:
+		return false, false
+	}
+	if cm.Neg {
+		zeroWhenTrue = !zeroWhenTrue
+	}
+	return zeroWhenTrue, true
 }
 
-func (p *c10Parser) checkFormat() {
+// c10TrimPrefix removes prefix from the front of ps (pieces compared structurally).
+func c10TrimPrefix(ps, prefix []c10Piece) ([]c10Piece, bool) {
+	ps = append([]c10Piece{}, ps...)
+	for _, q := range prefix {
+		if len(ps) == 0 {
+			return nil, false
+		}
+		h := ps[0]
+		switch {
+		case q.Num != nil:
+			if h.Num == nil || !h.Num.sameLanes(*q.Num) {
+				return nil, false
+			}
+			ps = ps[1:]
+		case h.Num != nil || !strings.HasPrefix(h.Lit, q.Lit):
+			return nil, false
+		case len(h.Lit) == len(q.Lit):
+			ps = ps[1:]
+		default:
+			ps[0] = c10Piece{Lit: h.Lit[len(q.Lit):]}
+		}
+	}
+	return ps, true
+}
+
+func c10TextPieces(parts ...interface{}) []c10Piece {
+	var ps []c10Piece
+	for _, x := range parts {
+		switch y := x.(type) {
+		case string:
+			ps = append(ps, c10Piece{Lit: y})
+		case c10Vec:
+			q, _ := c10Pieces(c10DecText(y))
+			ps = append(ps, q...)
+		case []c10Piece:
+			ps = append(ps, y...)
+		}
+	}
+	q, _ := c10Pieces(c10MkText(ps))
+	return q
+}
+
+// checkFormat evaluates String() on the K2 id of every kind and classifies the text of every outcome.
+func (p *c10Parser) checkFormat(emit bool) {
 	m, r := p.m, p.m.r
 	sname := p.strFi.Name()
 	pos := p.strFi.Decl.Pos()
 	recvT := p.strFi.Obj.Type().(*types.Signature).Recv().Type()
-	dashes := map[string]bool{}
+	markers := map[string]bool{}
 	for _, k := range m.kindsOf(p.packed) {
 		c := "format@" + sname + " kind=" + k.Name
 		in := m.inputOf(p.packed, k)
-		outs := m.ev.call(p.strFi.Decl, ptrVal(c10IntVal(m.vecOf(recvT, in))), nil, 1)
 		verLanes := !c10VerOf(in).sameLanes(c10ConstVec(0, 64, true))
-		wantOuts := 1
-		if verLanes {
-			wantOuts = 2
-		}
+		outs := m.ev.call(p.strFi.Decl, ptrVal(c10IntVal(m.vecOf(recvT, in))), nil, 1)
+		kindText := m.typeText(k)
+		head := c10TextPieces(kindText+c10Sep1, c10RefOf(in))
 		bad, unk := "", ""
-		var forms []string
+		var forms []c10Form
 		for _, o := range outs {
 			switch {
 			case o.Unsupported != "":
 				unk = sname + " is outside the interpreted statement forms: " + o.Unsupported
 				continue
 			case o.Panic:
-				bad = sname + " panics for a " + k.Name + " id"
+				bad = sname + " panics for a " + k.Name + " id (" + o.PanicWhy + ")"
 				continue
-			case len(o.Res) != 1 || o.Res[0].K != c10VFmt:
-				unk = sname + " does not return fmt.Sprintf(constant format, ...)"
-				continue
-			}
-			fv := o.Res[0]
-			verbs, lits, ok := c10ParseFormat(fv.S)
-			if !ok || len(verbs) != len(fv.Args) || len(verbs) < 2 || len(verbs) > 3 {
-				bad = fmt.Sprintf("format %q is not kind%sref[%sversion] with plain verbs", fv.S, c10Sep1, c10Sep2)
+			case len(o.Res) != 1:
+				unk = sname + " does not return one value"
 				continue
 			}
-			form := ""
+			ps, isText := c10Pieces(o.Res[0])
+			if !isText {
+				unk = fmt.Sprintf("the text %s returns is not tracked: %s", sname, o.Res[0])
+				continue
+			}
+			shown := c10PiecesString(ps)
+			f := c10Form{text: o.Res[0], describe: shown}
+			rest, okHead := c10TrimPrefix(ps, head)
 			switch {
-			case lits[0] != "" || !strings.ContainsRune("sv", rune(verbs[0])) || !strings.ContainsRune("dv", rune(verbs[1])):
-				bad = fmt.Sprintf("format %q does not start with the kind (%%s) followed by the decimal reference (%%d)", fv.S)
-			case lits[1] != c10Sep1:
-				bad = fmt.Sprintf("format %q separates kind and reference by %q; the parser splits on %q", fv.S, lits[1], c10Sep1)
-			case len(verbs) == 2 && lits[2] == "":
-				form = "A"
-			case len(verbs) == 2:
-				if !strings.HasPrefix(lits[2], c10Sep2) || len(lits[2]) == len(c10Sep2) || strings.Contains(lits[2][len(c10Sep2):], c10Sep2) {
-					bad = fmt.Sprintf("format %q ends in %q, which is not %q plus a no-version marker", fv.S, lits[2], c10Sep2)
+			case !okHead:
+				bad = fmt.Sprintf("%s prints %s for the %s id: it does not start with the kind %q, %q and the decimal reference %s", sname, shown, k.Name, kindText, c10Sep1, c10RefOf(in))
+			case len(rest) == 0:
+				f.form = "A"
+			default:
+				rest2, okSep := c10TrimPrefix(rest, []c10Piece{{Lit: c10Sep2}})
+				switch {
+				case !okSep:
+					bad = fmt.Sprintf("%s prints %s: after the reference comes %s, not %q and the version; the parser splits on %q", sname, shown, c10PiecesString(rest), c10Sep2, c10Sep2)
+				case len(rest2) == 1 && rest2[0].Num != nil && rest2[0].Num.sameLanes(m.vecOf(types.Typ[types.Int], c10VerOf(in))):
+					f.form = "C"
+				case len(rest2) == 1 && rest2[0].Num == nil && !strings.Contains(rest2[0].Lit, c10Sep2) && !strings.Contains(rest2[0].Lit, c10Sep1):
+					if _, err := strconv.ParseInt(rest2[0].Lit, 10, 64); err == nil {
+						if !verLanes || !c10IsZero(c10VerOf(in)) {
+							f.form = "C" // a constant version printed as a number
+							if !c10IsZero(c10VerOf(in)) {
+								bad = fmt.Sprintf("%s prints the constant %q as the version of an id whose version is %s", sname, rest2[0].Lit, c10VerOf(in))
+							}
+						}
+					} else {
+						f.form = "B"
+						markers[rest2[0].Lit] = true
+					}
+				default:
+					bad = fmt.Sprintf("%s prints %s: the part after %q is neither the decimal version %s nor a no-version marker", sname, shown, c10Sep2, c10VerOf(in))
+				}
+			}
+			// path conditions: only tests of the version against zero may select the form
+			zero, nonzero := false, false
+			for _, pc := range o.Conds {
+				z, ok := c10ZeroTest(pc.Cond.Cmp, m.vecOf(types.Typ[types.Int], c10VerOf(in)))
+				if !ok {
+					unk = fmt.Sprintf("the form %s is chosen by a test other than `version == 0`", shown)
+					continue
+				}
+				if z == pc.Taken {
+					zero = true
 				} else {
-					form = "B"
-					dashes[lits[2][len(c10Sep2):]] = true
-				}
-			case lits[2] != c10Sep2 || lits[3] != "" || !strings.ContainsRune("dv", rune(verbs[2])):
-				bad = fmt.Sprintf("format %q does not separate reference and decimal version by exactly %q; the parser splits on %q", fv.S, lits[2], c10Sep2)
-			default:
-				form = "C"
-			}
-			if form == "" {
-				continue
-			}
-			forms = append(forms, form)
-			// arguments
-			if a := fv.Args[0]; a.K != c10VStr || a.S != m.typeText(k) {
-				bad = fmt.Sprintf("the kind printed for a %s id is %s, must be %q", k.Name, a, m.typeText(k))
-			}
-			if a := fv.Args[1]; a.K != c10VInt || !a.V.sameLanes(c10RefOf(in)) {
-				bad = fmt.Sprintf("the reference printed is %s, must be %s", a, c10RefOf(in))
-			}
-			if form == "C" {
-				if a := fv.Args[2]; a.K != c10VInt || !a.V.sameLanes(c10VerOf(in)) {
-					bad = fmt.Sprintf("the version printed is %s, must be %s", a, c10VerOf(in))
+					nonzero = true
 				}
 			}
-			// path condition
+			if zero && nonzero {
+				continue // infeasible path
+			}
+			f.zeroVer = zero
 			switch {
-			case !verLanes || p.packed == "FeatureID":
-				if len(o.Conds) != 0 {
-					unk = "the format depends on an undecided condition"
+			case f.form == "":
+			case p.packed == "FeatureID" && f.form != "A":
+				bad = fmt.Sprintf("%s prints %s for a feature id, which has no version", sname, shown)
+			case p.packed != "FeatureID" && f.form == "A":
+				// kind/ref without version part: fine as long as it is only used for version 0
+				if verLanes && !zero {
+					bad = fmt.Sprintf("%s prints %s (no version) for ids whose version is not 0: the text parses back to another version", sname, shown)
 				}
-				if p.packed == "FeatureID" && form != "A" || p.packed != "FeatureID" && form != "B" {
-					bad = fmt.Sprintf("format %q is used for an id without version", fv.S)
+			case f.form == "B" && verLanes && !zero:
+				bad = fmt.Sprintf("%s prints the no-version form %s when the version is not known to be 0: the text parses back to another version", sname, shown)
+			case f.form == "C" && zero && len(markers) > 0:
+				// printing ":0" for version 0 is fine too
+			}
+			forms = append(forms, f)
+		}
+		if bad == "" && unk == "" {
+			// every id must have a form: version 0 and version != 0
+			hasZero, hasNonZero := false, false
+			for _, f := range forms {
+				if f.zeroVer || len(outs) == 1 {
+					hasZero = true
 				}
-			case len(o.Conds) != 1:
-				bad = fmt.Sprintf("format %q is chosen under %d undecided conditions; required: exactly `Version() == 0`", fv.S, len(o.Conds))
-			default:
-				pc := o.Conds[0]
-				cm := pc.Cond.Cmp
-				isVerZero := cm != nil && cm.Op == token.EQL && cm.L.K == c10VInt && cm.R.K == c10VInt &&
-					((cm.L.V.sameLanes(c10VerOf(in)) && c10IsZero(cm.R.V)) || (cm.R.V.sameLanes(c10VerOf(in)) && c10IsZero(cm.L.V)))
-				if !isVerZero {
-					bad = fmt.Sprintf("format %q is chosen by a test other than `version == 0`: the text then parses back to another version", fv.S)
-				} else if assumesZero := pc.Taken != cm.Neg; assumesZero != (form == "B") {
-					bad = fmt.Sprintf("format %q is used when the version is %s zero: the text parses back to another version", fv.S, map[bool]string{true: "", false: "not"}[assumesZero])
+				if !f.zeroVer {
+					hasNonZero = true
 				}
 			}
+			if verLanes && (!hasZero || !hasNonZero) {
+				bad = fmt.Sprintf("%s has no textual form for %s ids with version %s", sname, k.Name, map[bool]string{true: "0", false: "other than 0"}[!hasZero])
+			}
 		}
-		sort.Strings(forms)
-		if bad == "" && unk == "" && len(outs) != wantOuts {
-			bad = fmt.Sprintf("%s has %d textual forms for a %s id, expected %d", sname, len(outs), k.Name, wantOuts)
+		if strings.Contains(kindText, c10Sep1) || strings.Contains(kindText, c10Sep2) {
+			bad = fmt.Sprintf("kind text %q contains a separator", kindText)
 		}
-		if strings.Contains(m.typeText(k), c10Sep1) || strings.Contains(m.typeText(k), c10Sep2) {
-			bad = fmt.Sprintf("kind text %q contains a separator", m.typeText(k))
+		p.forms[k] = forms
+		if !emit {
+			continue
 		}
+		var fs []string
+		for _, f := range forms {
+			fs = append(fs, f.describe)
+		}
+		sort.Strings(fs)
 		switch {
 		case bad != "":
 			r.Bad(c, pos, "%s", bad)
 		case unk != "":
 			r.Unknown(c, pos, "%s", unk)
 		default:
-			r.OK(c, pos, "prints %q%sref[%sversion|marker] (forms %s) with kind = Type(), ref = Ref(), version = Version() of the K2 id; marker form exactly when version == 0", m.typeText(k), c10Sep1, c10Sep2, strings.Join(forms, ","))
+			r.OK(c, pos, "prints %s: kind = Type(), reference = Ref(), version = Version() of the K2 id, separators %q and %q; the no-version form exactly when the version is 0", strings.Join(fs, " / "), c10Sep1, c10Sep2)
 		}
 	}
-	if len(dashes) == 1 {
-		for d := range dashes {
-			p.dash = d
+	if len(markers) == 1 {
+		for d := range markers {
+			p.marker = d
 		}
 	}
 }
-
-func c10IsZero(v c10Vec) bool { u, ok := v.constant(); return ok && u == 0 }
 
 // ---------------------------------------------------------------------------
-// error handling
+// running the parser on an abstract text
 
-func (p *c10Parser) nonNilError(e ast.Expr, errObj types.Object) bool {
-	e = ast.Unparen(e)
-	if call, ok := e.(*ast.CallExpr); ok {
-		fn := callee(p.m.info, call)
-		return isPkgFunc(fn, "fmt", "Errorf") || isPkgFunc(fn, "errors", "New")
-	}
-	return errObj != nil && objOf(p.m.info, e) == errObj
+type c10ParseResult struct {
+	accepted bool // exactly one outcome, nil error
+	rejected bool // every outcome carries a provably non-nil error
+	id       c10Val
+	problem  string // neither: why
+	panics   bool
 }
 
-func (p *c10Parser) isNilIdent(e ast.Expr) bool {
-	_, ok := objOf(p.m.info, e).(*types.Nil)
-	return ok
-}
-
-// errTest recognises `E != nil` and returns E.
-func (p *c10Parser) errTest(cond ast.Expr) types.Object {
-	be, ok := ast.Unparen(cond).(*ast.BinaryExpr)
-	if !ok || be.Op != token.NEQ {
-		return nil
+func (p *c10Parser) run(text c10Val) c10ParseResult {
+	outs := p.m.ev.call(p.fi.Decl, nil, []c10Val{text}, 1)
+	res := c10ParseResult{}
+	if len(outs) == 0 {
+		res.problem = "no outcome"
+		return res
 	}
-	switch {
-	case p.isNilIdent(be.Y):
-		return objOf(p.m.info, be.X)
-	case p.isNilIdent(be.X):
-		return objOf(p.m.info, be.Y)
+	allErr := true
+	for _, o := range outs {
+		switch {
+		case o.Unsupported != "":
+			res.problem = p.name() + " is outside the interpreted statement forms: " + o.Unsupported + " (" + p.m.r.P.Rel(o.Pos) + ")"
+			return res
+		case o.Panic:
+			res.problem = p.name() + " panics (" + o.PanicWhy + ") at " + p.m.r.P.Rel(o.Pos)
+			res.panics = true
+			return res
+		case len(o.Res) != 2:
+			res.problem = "return shape"
+			return res
+		}
+		if o.Res[1].K != c10VErr {
+			allErr = false
+		}
 	}
-	return nil
-}
-
-func (p *c10Parser) checkErrors() {
-	m, r := p.m, p.m.r
-	info := m.info
-	helpers := map[*types.Func]*ast.CallExpr{}
-	var calls []*ast.CallExpr
-	inspectNoLit(p.fi.Decl.Body, func(n ast.Node) bool {
-		call, ok := n.(*ast.CallExpr)
-		if !ok {
-			return true
-		}
-		if ftv, ok := info.Types[call.Fun]; ok && ftv.IsType() {
-			return true
-		}
-		var last types.Type
-		switch t := info.TypeOf(call).(type) {
-		case *types.Tuple:
-			if t.Len() > 0 {
-				last = t.At(t.Len() - 1).Type()
-			}
-		default:
-			last = t
-		}
-		if last == nil || !c10IsError(last) {
-			return true
-		}
-		fn := callee(info, call)
-		if isPkgFunc(fn, "fmt", "Errorf") || isPkgFunc(fn, "errors", "New") {
-			return true
-		}
-		calls = append(calls, call)
-		if fn != nil && m.ev.decls[fn] != nil {
-			helpers[fn] = call
-		}
-		return true
-	})
-	for _, call := range calls {
-		fn := callee(info, call)
-		cn := "call"
-		if fn != nil {
-			cn = funcName(fn)
-			if fn.Pkg() != nil && fn.Pkg() != m.pk.Types {
-				cn = fn.Pkg().Name() + "." + cn
-			}
-		}
-		c := "errors@" + p.name() + " " + cn
-		var errObj types.Object
-		var test *ast.IfStmt
-		switch par := p.par[call].(type) {
-		case *ast.AssignStmt:
-			if len(par.Rhs) != 1 {
-				r.Unknown(c, call.Pos(), "error-returning call in a parallel assignment")
-				continue
-			}
-			lastL := par.Lhs[len(par.Lhs)-1]
-			if id, ok := lastL.(*ast.Ident); ok && id.Name == "_" {
-				r.Bad(c, call.Pos(), "the error of `%s` is discarded: malformed text yields the zero value and is parsed into a wrong id instead of an error", c10Src(r, call))
-				continue
-			}
-			errObj = objOf(info, lastL)
-			switch gp := p.par[par].(type) {
-			case *ast.IfStmt:
-				if gp.Init == par {
-					test = gp
-				}
-			case *ast.BlockStmt:
-				for i, s := range gp.List {
-					if s == ast.Stmt(par) && i+1 < len(gp.List) {
-						if ifs, ok := gp.List[i+1].(*ast.IfStmt); ok && ifs.Init == nil {
-							test = ifs
+	if allErr {
+		res.rejected = true
+		return res
+	}
+	if len(outs) == 1 && outs[0].Res[1].K == c10VNil {
+		res.accepted, res.id = true, outs[0].Res[0]
+		return res
+	}
+	if len(outs) > 1 {
+		res.problem = fmt.Sprintf("%d outcomes depending on undecided conditions", len(outs))
+		for _, o := range outs {
+			for _, pc := range o.Conds {
+				if cm := pc.Cond.Cmp; cm != nil {
+					for _, side := range []c10Val{cm.L, cm.R} {
+						if side.Why != "" && !strings.Contains(res.problem, side.Why) {
+							res.problem += " (" + side.Why + ")"
 						}
 					}
 				}
 			}
-		case *ast.ReturnStmt:
-			if len(par.Results) == 1 {
-				r.OK(c, call.Pos(), "`%s` is returned as is, error included", c10Src(r, call))
-				continue
-			}
-			r.Unknown(c, call.Pos(), "error-returning call inside a return with other results")
-			continue
-		default:
-			r.Bad(c, call.Pos(), "the error of `%s` is never looked at", c10Src(r, call))
-			continue
 		}
-		if errObj == nil || test == nil || p.errTest(test.Cond) != errObj {
-			r.Bad(c, call.Pos(), "the error of `%s` is not tested by `if %s != nil` right after the call (accepted idioms: next statement, or if-with-init): text it rejects is parsed into a wrong id", c10Src(r, call), c10ObjName(errObj))
-			continue
-		}
-		var ret *ast.ReturnStmt
-		if n := len(test.Body.List); n > 0 {
-			ret, _ = test.Body.List[n-1].(*ast.ReturnStmt)
-		}
-		switch {
-		case ret == nil || len(ret.Results) != 2:
-			r.Bad(c, test.Pos(), "the `%s != nil` branch does not return: parsing continues with a zero value", errObj.Name())
-		case !p.nonNilError(ret.Results[1], errObj):
-			r.Bad(c, ret.Pos(), "after `%s` failed the parser executes `%s`: the error result is not provably non-nil (accepted: fmt.Errorf, errors.New, the tested error), so bad text gives an id with a nil error", c10Src(r, call), c10Src(r, ret))
-		default:
-			r.OK(c, call.Pos(), "`%s` is followed by `if %s != nil { %s }`", c10Src(r, call), errObj.Name(), c10Src(r, ret))
-		}
-	}
-	if len(calls) == 0 {
-		r.Anchor("error-returning calls in " + p.name())
-	}
-	// every return
-	nSucc := 0
-	badRet := ""
-	inspectNoLit(p.fi.Decl.Body, func(n ast.Node) bool {
-		ret, ok := n.(*ast.ReturnStmt)
-		if !ok {
-			return true
-		}
-		switch {
-		case len(ret.Results) == 1:
-			if _, isCall := ast.Unparen(ret.Results[0]).(*ast.CallExpr); !isCall {
-				badRet = "unrecognised return " + c10Src(r, ret)
-			}
-		case len(ret.Results) != 2:
-			badRet = "bare return"
-		case p.isNilIdent(ret.Results[1]):
-			if tv := info.Types[ret.Results[0]]; tv.Value != nil {
-				badRet = fmt.Sprintf("`%s` returns the constant id %s with a nil error", c10Src(r, ret), tv.Value)
-			}
-			nSucc++
-		case p.nonNilError(ret.Results[1], nil):
-		default:
-			// `return x, err` is fine only under `if err != nil`
-			ok := false
-			if ifs, _ := enclosing(p.par, ret, func(n ast.Node) bool { _, is := n.(*ast.IfStmt); return is }).(*ast.IfStmt); ifs != nil {
-				if eo := p.errTest(ifs.Cond); eo != nil && objOf(info, ret.Results[1]) == eo {
-					ok = true
-				}
-			}
-			if !ok {
-				badRet = fmt.Sprintf("`%s`: the error result is neither nil, provably non-nil, nor a tested error", c10Src(r, ret))
-			}
-		}
-		return true
-	})
-	c := "returns@" + p.name()
-	switch {
-	case badRet != "":
-		r.Bad(c, p.fi.Decl.Pos(), "%s", badRet)
-	case nSucc == 0:
-		r.Unknown(c, p.fi.Decl.Pos(), "no success return (id, nil) found")
-	default:
-		r.OK(c, p.fi.Decl.Pos(), "%d success return(s) yield a computed id; every other return carries a provably non-nil error", nSucc)
-	}
-	// helpers: Type.objectID / Type.FeatureID
-	var hs []*types.Func
-	for fn := range helpers {
-		hs = append(hs, fn)
-	}
-	sort.Slice(hs, func(i, j int) bool { return funcName(hs[i]) < funcName(hs[j]) })
-	for _, fn := range hs {
-		p.checkHelper(fn, helpers[fn])
-	}
-}
-
-func c10ObjName(o types.Object) string {
-	if o == nil {
-		return "err"
-	}
-	return o.Name()
-}
-
-// checkHelper: a kind-lookup helper returns a nil error only inside a case of a known Type constant,
-// and an unknown kind text makes it return a non-nil error.
-func (p *c10Parser) checkHelper(fn *types.Func, call *ast.CallExpr) {
-	m, r := p.m, p.m.r
-	fd := m.ev.decls[fn]
-	c := "reject-unknown-kind@" + p.name() + " via " + funcName(fn)
-	sig := fn.Type().(*types.Signature)
-	if sig.Results().Len() != 2 {
-		r.Unknown(c, fd.Pos(), "helper does not return (id, error)")
-		return
-	}
-	hfi := m.funcInfoOf(fn)
-	par := parentsOf(r.P, hfi)
-	var recvObj types.Object
-	if fd.Recv != nil && len(fd.Recv.List) == 1 && len(fd.Recv.List[0].Names) == 1 {
-		recvObj = m.info.Defs[fd.Recv.List[0].Names[0]]
-	}
-	bad := ""
-	inspectNoLit(fd.Body, func(n ast.Node) bool {
-		ret, ok := n.(*ast.ReturnStmt)
-		if !ok || bad != "" {
-			return true
-		}
-		if len(ret.Results) != 2 {
-			bad = "return shape " + c10Src(r, ret)
-			return true
-		}
-		if p.nonNilError(ret.Results[1], nil) {
-			return true
-		}
-		if !p.isNilIdent(ret.Results[1]) {
-			bad = fmt.Sprintf("`%s`: error result is neither nil nor provably non-nil", c10Src(r, ret))
-			return true
-		}
-		cc, _ := enclosing(par, ret, func(n ast.Node) bool { _, is := n.(*ast.CaseClause); return is }).(*ast.CaseClause)
-		var sw *ast.SwitchStmt
-		if cc != nil {
-			sw, _ = enclosing(par, cc, func(n ast.Node) bool { _, is := n.(*ast.SwitchStmt); return is }).(*ast.SwitchStmt)
-		}
-		known := cc != nil && cc.List != nil && sw != nil && sw.Tag != nil && recvObj != nil && objOf(m.info, sw.Tag) == recvObj
-		if known {
-			for _, ce := range cc.List {
-				if m.kindByTypeConst(objOf(m.info, ce)) == nil {
-					known = false
-				}
-			}
-		}
-		if !known {
-			bad = fmt.Sprintf("`%s` returns a nil error outside a `case <Type constant>` of the switch over the kind: text naming an unknown kind yields an id (%s) instead of an error", c10Src(r, ret), c10Src(r, ret.Results[0]))
-		}
-		return true
-	})
-	if bad != "" {
-		r.Bad(c, fd.Pos(), "%s", bad)
-		return
-	}
-	// engine check: evaluate the parser's call with a kind text that is none of the seven
-	p.kindText = c10UnknownKindText
-	m.ev.hook = p.hook
-	v := m.ev.expr(call, c10Env{}, 0)
-	m.ev.hook = nil
-	if v.K == c10VTuple && len(v.Args) == 2 && v.Args[1].K == c10VErr {
-		r.OK(c, fd.Pos(), "`%s` with a kind text outside the Type constants evaluates to (%s, non-nil error); nil errors only inside `case <Type constant>`", c10Src(r, call), v.Args[0])
 	} else {
-		r.Bad(c, fd.Pos(), "`%s` with a kind text outside the seven Type constants evaluates to %s, not to a non-nil error", c10Src(r, call), v)
+		res.problem = "the error result is " + outs[0].Res[1].String() + ", neither nil nor provably non-nil"
 	}
+	return res
 }
 
-// ---------------------------------------------------------------------------
-// arity of the splits
+func (p *c10Parser) show(text c10Val) string { return text.String() }
 
-// lenCond evaluates a condition that only talks about len(P) and integer constants for len(P) = L.
-func (p *c10Parser) lenCond(e ast.Expr, P types.Object, alias types.Object, L int64, consts *[]int64) (val bool, ok bool) {
-	info := p.m.info
-	var num func(e ast.Expr) (int64, bool)
-	num = func(e ast.Expr) (int64, bool) {
-		e = ast.Unparen(e)
-		if v, isC := constInt(info, e); isC {
-			*consts = append(*consts, v)
-			return v, true
-		}
-		if call, isCall := e.(*ast.CallExpr); isCall && builtinName(info, call) == "len" && len(call.Args) == 1 && objOf(info, call.Args[0]) == P {
-			return L, true
-		}
-		if alias != nil && objOf(info, e) == alias {
-			return L, true
-		}
-		return 0, false
-	}
-	e = ast.Unparen(e)
-	switch x := e.(type) {
-	case *ast.UnaryExpr:
-		if x.Op == token.NOT {
-			v, ok := p.lenCond(x.X, P, alias, L, consts)
-			return !v, ok
-		}
-	case *ast.BinaryExpr:
-		switch x.Op {
-		case token.LAND, token.LOR:
-			a, oka := p.lenCond(x.X, P, alias, L, consts)
-			b, okb := p.lenCond(x.Y, P, alias, L, consts)
-			if x.Op == token.LAND {
-				return a && b, oka && okb
+// accepts lists the texts that must parse, with the id they must give.
+type c10Accept struct {
+	construct string
+	text      c10Val
+	want      c10Vec
+	what      string
+	kind      *c10Kind
+}
+
+func (p *c10Parser) accepts() []c10Accept {
+	m := p.m
+	var out []c10Accept
+	for _, k := range m.kindsOf(p.packed) {
+		in := m.inputOf(p.packed, k)
+		for _, f := range p.forms[k] {
+			want := in
+			if f.zeroVer {
+				want = in.andNot(c10ConstVec(1<<c10VerBits-1, 64, true))
 			}
-			return a || b, oka && okb
-		case token.EQL, token.NEQ, token.LSS, token.LEQ, token.GTR, token.GEQ:
-			a, oka := num(x.X)
-			b, okb := num(x.Y)
-			if !oka || !okb {
-				return false, false
-			}
-			switch x.Op {
-			case token.EQL:
-				return a == b, true
-			case token.NEQ:
-				return a != b, true
-			case token.LSS:
-				return a < b, true
-			case token.LEQ:
-				return a <= b, true
-			case token.GTR:
-				return a > b, true
-			default:
-				return a >= b, true
-			}
+			out = append(out, c10Accept{construct: "roundtrip@" + p.name() + " kind=" + k.Name, text: f.text, want: want, kind: k,
+				what: fmt.Sprintf("%s(%s), the text %s prints for the %s id%s", p.name(), f.describe, p.strFi.Name(), k.Name, map[bool]string{true: " with version 0", false: ""}[f.zeroVer])})
 		}
 	}
-	return false, false
-}
-
-// lenAlias returns the variable bound to len(P) by the init statement of an if (`if l := len(P); ...`).
-func (p *c10Parser) lenAlias(ifs *ast.IfStmt, P types.Object) types.Object {
-	as, ok := ifs.Init.(*ast.AssignStmt)
-	if !ok || len(as.Lhs) != 1 || len(as.Rhs) != 1 {
-		return nil
-	}
-	call, ok := ast.Unparen(as.Rhs[0]).(*ast.CallExpr)
-	if !ok || builtinName(p.m.info, call) != "len" || len(call.Args) != 1 || objOf(p.m.info, call.Args[0]) != P {
-		return nil
-	}
-	return objOf(p.m.info, as.Lhs[0])
-}
-
-type c10Split struct {
-	obj      types.Object
-	role     int // 1: the "/" split of the argument, 2: the ":" split of its second part
-	accepted map[int64]bool
-	maxL     int64
-	at       ast.Node
-}
-
-func (p *c10Parser) splits() []*c10Split {
-	var out []*c10Split
-	for o, ds := range p.defs {
-		if len(ds) != 1 {
-			continue
-		}
-		call, ok := ast.Unparen(ds[0].rhs).(*ast.CallExpr)
-		if !ok || !isPkgFunc(callee(p.m.info, call), "strings", "Split") {
-			continue
-		}
-		out = append(out, &c10Split{obj: o, at: ds[0].at})
-	}
-	sort.Slice(out, func(i, j int) bool { return out[i].obj.Pos() < out[j].obj.Pos() })
 	return out
 }
 
-func (p *c10Parser) checkArity() {
-	m, r := p.m, p.m.r
-	info := m.info
-	sps := p.splits()
-	seenRole := map[int]bool{}
-	for _, sp := range sps {
-		id := ast.NewIdent(sp.obj.Name())
-		_ = id
-		org := ""
-		if ds := p.defs[sp.obj]; len(ds) == 1 {
-			org = p.origin(ds[0].rhs, 0)
-		}
-		c := "arity@" + p.name() + " split of " + sp.obj.Name()
-		var want []int64
-		switch org {
-		case p.split1():
-			sp.role, want = 1, []int64{2}
-			c = "arity@" + p.name() + " split on " + c10Sep1
-		case p.split2():
-			c = "arity@" + p.name() + " split on " + c10Sep2
-			if p.packed == "FeatureID" {
-				r.Unknown(c, sp.obj.Pos(), "feature ids have no version part; a %q split in %s is not among the enumerated idioms", c10Sep2, p.name())
-				continue
-			}
-			sp.role, want = 2, []int64{1, 2}
-		default:
-			r.Bad(c, sp.obj.Pos(), "strings.Split result %s comes from %s; the form kind%sref[%sversion] requires %s and %s", sp.obj.Name(), org, c10Sep1, c10Sep2, p.split1(), p.split2())
-			continue
-		}
-		seenRole[sp.role] = true
-		// reject guards: if-statements whose condition only talks about len(P) and whose body ends in an error return
-		type guard struct {
-			ifs   *ast.IfStmt
-			alias types.Object
-		}
-		var guards []guard
-		var consts []int64
-		inspectNoLit(p.fi.Decl.Body, func(n ast.Node) bool {
-			ifs, ok := n.(*ast.IfStmt)
-			if !ok || ifs.Pos() < sp.at.End() || ifs.Else != nil {
-				return true
-			}
-			alias := p.lenAlias(ifs, sp.obj)
-			if ifs.Init != nil && alias == nil {
-				return true
-			}
-			if _, ok := p.lenCond(ifs.Cond, sp.obj, alias, 0, &consts); !ok {
-				return true
-			}
-			nb := len(ifs.Body.List)
-			if nb == 0 {
-				return true
-			}
-			ret, isRet := ifs.Body.List[nb-1].(*ast.ReturnStmt)
-			if !isRet || len(ret.Results) != 2 || !p.nonNilError(ret.Results[1], nil) {
-				return true
-			}
-			// must sit directly in the function body (unconditional guard)
-			if p.par[ifs] != ast.Node(p.fi.Decl.Body) {
-				return true
-			}
-			guards = append(guards, guard{ifs, alias})
-			return true
-		})
-		sp.maxL = 2
-		for _, v := range consts {
-			if v+1 > sp.maxL {
-				sp.maxL = v + 1
-			}
-		}
-		sp.accepted = map[int64]bool{}
-		var acc []string
-		for L := int64(0); L <= sp.maxL; L++ {
-			rejected := false
-			for _, g := range guards {
-				var dummy []int64
-				if v, _ := p.lenCond(g.ifs.Cond, sp.obj, g.alias, L, &dummy); v {
-					rejected = true
-				}
-			}
-			// strings.Split with a non-empty separator never returns 0 parts
-			if !rejected && L >= 1 {
-				sp.accepted[L] = true
-				s := fmt.Sprint(L)
-				if L == sp.maxL {
-					s += " and every larger count"
-				}
-				acc = append(acc, s)
-			}
-		}
-		okSet := len(sp.accepted) == len(want)
-		for _, w := range want {
-			if !sp.accepted[w] {
-				okSet = false
-			}
-		}
-		var gsrc []string
-		for _, g := range guards {
-			gsrc = append(gsrc, "`"+c10Src(r, g.ifs.Cond)+"`")
-		}
-		sepName := map[int]string{1: c10Sep1, 2: c10Sep2}[sp.role]
-		if okSet {
-			r.OK(c, sp.obj.Pos(), "guards %s evaluated for len(%s) = 0..%d (constant beyond): exactly %v part(s) of the %q split are accepted, every other count returns an error", strings.Join(gsrc, ", "), sp.obj.Name(), sp.maxL, want, sepName)
-		} else {
-			r.Bad(c, sp.obj.Pos(), "the %q split %s is accepted with {%s} parts (guards: %s); the form kind%sref[%sversion] allows exactly %v: text with extra %q-separated parts is parsed into an id instead of being rejected", sepName, sp.obj.Name(), strings.Join(acc, ", "), strings.Join(gsrc, ", "), c10Sep1, c10Sep2, want, sepName)
-		}
-	}
-	if !seenRole[1] {
-		r.Bad("arity@"+p.name()+" "+c10Sep1, p.fi.Decl.Pos(), "no strings.Split(s, %q) of the argument found", c10Sep1)
-	}
-	if !seenRole[2] && p.packed != "FeatureID" {
-		r.Bad("arity@"+p.name()+" "+c10Sep2, p.fi.Decl.Pos(), "no strings.Split(parts[1], %q) found: the version cannot be separated from the reference", c10Sep2)
-	}
-	// index uses
-	inspectNoLit(p.fi.Decl.Body, func(n ast.Node) bool {
-		ix, ok := n.(*ast.IndexExpr)
-		if !ok {
-			return true
-		}
-		var sp *c10Split
-		for _, s := range sps {
-			if objOf(info, ix.X) == s.obj {
-				sp = s
-			}
-		}
-		if sp == nil || sp.accepted == nil {
-			return true
-		}
-		k, isConst := constInt(info, ix.Index)
-		c := fmt.Sprintf("index@%s [%d] of the split on %s", p.name(), k, map[int]string{1: c10Sep1, 2: c10Sep2}[sp.role])
-		if !isConst {
-			r.Unknown(c, ix.Pos(), "non-constant index into a split result")
-			return true
-		}
-		minAcc := int64(1 << 30)
-		for L := range sp.accepted {
-			if L < minAcc {
-				minAcc = L
-			}
-		}
-		if k < minAcc {
-			r.OK(c, ix.Pos(), "index %d < %d, the smallest accepted part count of %s", k, minAcc, sp.obj.Name())
-			return true
-		}
-		// guarded by a length test: left conjunct of an enclosing &&, or the condition of an enclosing if
-		guarded := ""
-		implies := func(cond ast.Expr) bool {
-			for _, cj := range c10Conjuncts(cond) {
-				all, any := true, false
-				var dummy []int64
-				for L := range sp.accepted {
-					v, ok := p.lenCond(cj, sp.obj, nil, L, &dummy)
-					if !ok {
-						all = false
-						break
-					}
-					if v {
-						any = true
-						if L <= k {
-							all = false
-						}
-					}
-				}
-				if all && any {
-					guarded = c10Src(r, cj)
-					return true
-				}
-			}
-			return false
-		}
-		var child ast.Node = ix
-		for par := p.par[ix]; par != nil && guarded == ""; child, par = par, p.par[par] {
-			switch x := par.(type) {
-			case *ast.BinaryExpr:
-				if x.Op == token.LAND && child == ast.Node(x.Y) {
-					implies(x.X)
-				}
-			case *ast.IfStmt:
-				if child == ast.Node(x.Body) {
-					implies(x.Cond)
-				}
-			}
-		}
-		if guarded != "" {
-			r.OK(c, ix.Pos(), "index %d is only evaluated under `%s`", k, guarded)
-		} else {
-			r.Bad(c, ix.Pos(), "%s is evaluated although %s may have only %d part(s): index out of range panic instead of an error", c10Src(r, ix), sp.obj.Name(), minAcc)
-		}
-		return true
-	})
-}
-
-func c10Conjuncts(e ast.Expr) []ast.Expr {
-	e = ast.Unparen(e)
-	if be, ok := e.(*ast.BinaryExpr); ok && be.Op == token.LAND {
-		return append(c10Conjuncts(be.X), c10Conjuncts(be.Y)...)
-	}
-	return []ast.Expr{e}
-}
-
-// ---------------------------------------------------------------------------
-// the version part
-
-func (p *c10Parser) checkVersionPart() {
-	if p.packed == "FeatureID" {
-		return
-	}
-	m, r := p.m, p.m.r
-	info := m.info
-	c := "version-part@" + p.name()
-	// the version variable: a local whose only assignment comes from parsing the part after ':' and that defaults to zero
-	var ver types.Object
-	var def c10Def
-	var objs []types.Object
-	for o := range p.defs {
-		objs = append(objs, o)
-	}
-	sort.Slice(objs, func(i, j int) bool { return objs[i].Pos() < objs[j].Pos() })
-	for _, o := range objs {
-		ds := p.defs[o]
-		if len(ds) != 1 || !p.zeroDecl[o] {
-			continue
-		}
-		s := p.origin(ds[0].rhs, 0)
-		if ds[0].idx >= 0 {
-			s += fmt.Sprintf("#%d", ds[0].idx)
-		}
-		if s == p.verOrigin() {
-			ver, def = o, ds[0]
-		}
-	}
-	if ver == nil {
-		r.Bad(c, p.fi.Decl.Pos(), "no variable is declared zero and assigned only from strconv.ParseInt(<part after %q>, 10, ..): the forms without version (`kind%sref`, `kind%sref%s%s`) have no defined version 0", c10Sep2, c10Sep1, c10Sep1, c10Sep2, p.dash)
-		return
-	}
-	// enclosing ifs of the assignment
-	var ifs []*ast.IfStmt
-	for n := p.par[def.at]; n != nil && n != ast.Node(p.fi.Decl.Body); n = p.par[n] {
-		if x, ok := n.(*ast.IfStmt); ok {
-			ifs = append(ifs, x)
-		}
-	}
-	if len(ifs) != 1 || ifs[0].Init != nil || ifs[0].Else != nil {
-		r.Unknown(c, def.at.Pos(), "the assignment of %s is not inside exactly one `if len(parts)==2 && parts[1] != %q { ... }`", ver.Name(), p.dash)
-		return
-	}
-	var P types.Object
-	for _, sp := range p.splits() {
-		if ds := p.defs[sp.obj]; len(ds) == 1 && p.origin(ds[0].rhs, 0) == p.split2() {
-			P = sp.obj
-		}
-	}
-	hasLen, hasDash := false, false
-	for _, cj := range c10Conjuncts(ifs[0].Cond) {
-		var dummy []int64
-		v1, ok1 := p.lenCond(cj, P, nil, 1, &dummy)
-		v2, ok2 := p.lenCond(cj, P, nil, 2, &dummy)
-		if P != nil && ok1 && ok2 {
-			if !v1 && v2 {
-				hasLen = true
-				continue
-			}
-			r.Bad(c, cj.Pos(), "length test `%s` does not select exactly the two-part form", c10Src(r, cj))
-			return
-		}
-		if be, ok := ast.Unparen(cj).(*ast.BinaryExpr); ok && be.Op == token.NEQ {
-			a, b := be.X, be.Y
-			if _, isStr := constString(info, a); isStr {
-				a, b = b, a
-			}
-			if lit, isStr := constString(info, b); isStr && p.origin(a, 0) == p.split2()+"[1]" {
-				if lit == p.dash && p.dash != "" {
-					hasDash = true
-					continue
-				}
-				r.Bad(c, cj.Pos(), "the parser treats %q as the no-version marker, String() prints %q for version 0: the text of a version-0 id does not parse back", lit, p.dash)
-				return
-			}
-		}
-		r.Unknown(c, cj.Pos(), "condition `%s` guarding the version assignment is neither the length test nor the no-version marker test", c10Src(r, cj))
-		return
-	}
-	switch {
-	case !hasLen:
-		r.Bad(c, ifs[0].Pos(), "the version is parsed without testing that the %q split has two parts", c10Sep2)
-	case !hasDash:
-		r.Bad(c, ifs[0].Pos(), "the version part is always parsed as a number, but String() prints `kind%sref%s%s` for version 0: that text is rejected, ids without version do not round-trip", c10Sep1, c10Sep2, p.dash)
-	default:
-		r.OK(c, ifs[0].Pos(), "%s is declared zero and assigned only under `%s` from ParseInt(part after %q, 10): absent version and the marker %q give version 0, exactly the forms String() prints for version 0", ver.Name(), c10Src(r, ifs[0].Cond), c10Sep2, p.dash)
-	}
-}
-
-// ---------------------------------------------------------------------------
-// abstract value of the success return
-
 func (p *c10Parser) checkRoundTrip() {
 	m, r := p.m, p.m.r
-	var rets []*ast.ReturnStmt
-	inspectNoLit(p.fi.Decl.Body, func(n ast.Node) bool {
-		if ret, ok := n.(*ast.ReturnStmt); ok && len(ret.Results) == 2 && p.isNilIdent(ret.Results[1]) {
-			rets = append(rets, ret)
+	byC := map[string][]c10Accept{}
+	var order []string
+	for _, a := range p.accepts() {
+		if _, seen := byC[a.construct]; !seen {
+			order = append(order, a.construct)
 		}
-		return true
-	})
-	if len(rets) == 0 {
-		inspectNoLit(p.fi.Decl.Body, func(n ast.Node) bool {
-			if ret, ok := n.(*ast.ReturnStmt); ok && len(ret.Results) == 1 {
-				rets = append(rets, ret)
-			}
-			return true
-		})
-	}
-	if len(rets) == 0 {
-		r.Anchor("success return of " + p.name())
-		return
+		byC[a.construct] = append(byC[a.construct], a)
 	}
 	for _, k := range m.kindsOf(p.packed) {
 		c := "roundtrip@" + p.name() + " kind=" + k.Name
-		withVer := p.packed == "ElementID" || (p.packed == "ObjectID" && k.Versioned)
-		want := m.shape(k, withVer)
+		if len(byC[c]) == 0 {
+			r.Unknown(c, p.fi.Decl.Pos(), "%s produced no textual form for %s ids that could be fed to %s (see format@%s)", p.strFi.Name(), k.Name, p.name(), p.strFi.Name())
+		}
+	}
+	for _, c := range order {
 		okAll := true
-		var got c10Val
-		for _, ret := range rets {
-			p.kindText = m.typeText(k)
-			m.ev.hook = p.hook
-			got = m.ev.expr(ret.Results[0], c10Env{}, 0)
-			m.ev.hook = nil
-			if got.K == c10VTuple && len(got.Args) > 0 {
-				got = got.Args[0]
+		var shown []string
+		for _, a := range byC[c] {
+			res := p.run(a.text)
+			shown = append(shown, p.show(a.text))
+			if !okAll {
+				break // one report per construct
 			}
-			what := fmt.Sprintf("id parsed from %q%sref%s (kind text from %s, ref from %s%s)", m.typeText(k), c10Sep1, map[bool]string{true: c10Sep2 + "version", false: ""}[withVer],
-				p.typeOrigin(), p.refOrigin(), map[bool]string{true: ", version from " + p.verOrigin(), false: ""}[withVer])
-			if !m.verdict(c, ret.Pos(), got, "", want, what) {
+			switch {
+			case res.accepted:
+				if !m.verdict(c, p.fi.Decl.Pos(), res.id, "", a.want, a.what) {
+					okAll = false
+				}
+			case res.rejected:
+				r.Bad(c, p.fi.Decl.Pos(), "%s returns an error: the textual form of a valid id does not parse back", a.what)
+				okAll = false
+			case res.panics:
+				r.Bad(c, p.fi.Decl.Pos(), "%s: %s", a.what, res.problem)
+				okAll = false
+			default:
+				r.Unknown(c, p.fi.Decl.Pos(), "%s: %s", a.what, res.problem)
 				okAll = false
 			}
 		}
 		if okAll {
-			r.OK(c, rets[0].Pos(), "`%s` with kind text %q, ref and version taken from their textual positions evaluates to %s = the K2 id String() was given", c10Src(r, rets[0]), m.typeText(k), got.V)
+			r.OK(c, p.fi.Decl.Pos(), "%s evaluated on %s gives (the K2 id String() was given, nil) for every ref in [0,2^%d) and version in [0,2^%d)", p.name(), strings.Join(shown, " and "), c10RefBits, c10VerBits)
 		}
 	}
+	// kind/ref without a version part
+	if p.packed == "FeatureID" {
+		return
+	}
+	for _, k := range m.kindsOf(p.packed) {
+		c := "optional-version@" + p.name() + " kind=" + k.Name
+		text := c10MkText(c10TextPieces(m.typeText(k)+c10Sep1, p.ref))
+		res := p.run(text)
+		what := fmt.Sprintf("%s(%s), the form without version part", p.name(), p.show(text))
+		switch {
+		case res.accepted:
+			if m.verdict(c, p.fi.Decl.Pos(), res.id, "", m.shape(k, false), what) {
+				r.OK(c, p.fi.Decl.Pos(), "%s = (%s, nil): the %s id with version 0", what, res.id.V, k.Name)
+			}
+		case res.rejected:
+			r.Bad(c, p.fi.Decl.Pos(), "%s returns an error: the shape kind%sref[%sversion] allows the version to be absent", what, c10Sep1, c10Sep2)
+		case res.panics:
+			r.Bad(c, p.fi.Decl.Pos(), "%s: %s", what, res.problem)
+		default:
+			r.Unknown(c, p.fi.Decl.Pos(), "%s: %s", what, res.problem)
+		}
+	}
+}
+
+// ---------------------------------------------------------------------------
+// arity of the two splits
+
+func (p *c10Parser) firstKind() *c10Kind { return p.m.kindsOf(p.packed)[0] }
+
+// refVer is the well-formed part after the kind: "REF" for feature ids, "REF:VER" otherwise.
+func (p *c10Parser) refVer() []c10Piece {
+	if p.packed == "FeatureID" {
+		return c10TextPieces(p.ref)
+	}
+	return c10TextPieces(p.ref, c10Sep2, p.ver)
+}
+
+func (p *c10Parser) checkArity() {
+	m, r := p.m, p.m.r
+	kind := m.typeText(p.firstKind())
+	type spec struct {
+		sep   string
+		want  map[int]bool
+		build func(n int) c10Val
+	}
+	specs := []spec{
+		{c10Sep1, map[int]bool{2: true}, func(n int) c10Val {
+			ps := c10TextPieces(kind)
+			for i := 1; i < n; i++ {
+				ps = c10TextPieces(ps, c10Sep1, p.refVer())
+			}
+			return c10MkText(ps)
+		}},
+		{c10Sep2, map[int]bool{1: true, 2: true}, func(n int) c10Val {
+			ps := c10TextPieces(kind, c10Sep1, p.ref)
+			for i := 1; i < n; i++ {
+				ps = c10TextPieces(ps, c10Sep2, p.ver)
+			}
+			return c10MkText(ps)
+		}},
+	}
+	if p.packed == "FeatureID" {
+		specs[1].want = map[int]bool{1: true}
+	}
+	for _, sp := range specs {
+		c := "arity@" + p.name() + " split on " + sp.sep
+		N := 4
+		var accepted []int
+		problem, isBad := "", false
+		for round := 0; round < 2; round++ {
+			accepted, problem = nil, ""
+			m.ev.resetScenario()
+			for n := 1; n <= N && problem == ""; n++ {
+				text := sp.build(n)
+				res := p.run(text)
+				switch {
+				case res.accepted:
+					accepted = append(accepted, n)
+				case res.rejected:
+				default:
+					problem = fmt.Sprintf("%s(%s) (%d %q-separated parts): %s", p.name(), p.show(text), n, sp.sep, res.problem)
+					isBad = res.panics
+				}
+			}
+			var maxC int64
+			for _, v := range m.ev.lenConsts {
+				if v > maxC {
+					maxC = v
+				}
+			}
+			if int(maxC)+1 <= N || N >= 12 {
+				break
+			}
+			N = int(maxC) + 2
+			if N > 12 {
+				N = 12
+			}
+		}
+		escapes := m.ev.lenEscapes
+		m.ev.resetScenario()
+		okSet := len(accepted) == len(sp.want)
+		for _, n := range accepted {
+			if !sp.want[n] {
+				okSet = false
+			}
+		}
+		var wantList []int
+		for n := range sp.want {
+			wantList = append(wantList, n)
+		}
+		sort.Ints(wantList)
+		switch {
+		case problem != "" && isBad:
+			r.Bad(c, p.fi.Decl.Pos(), "%s instead of returning an error", problem)
+		case problem != "":
+			r.Unknown(c, p.fi.Decl.Pos(), "%s", problem)
+		case !okSet:
+			r.Bad(c, p.fi.Decl.Pos(), "texts with %v %q-separated part(s) are accepted (evaluated for 1..%d parts); the form kind%sref[%sversion] allows exactly %v: text with extra %q-separated parts is parsed into an id instead of being rejected", accepted, sp.sep, N, c10Sep1, c10Sep2, wantList, sp.sep)
+		case escapes != "":
+			r.Unknown(c, p.fi.Decl.Pos(), "part counts 1..%d behave as required, but %s: the behaviour for larger counts is not established", N, escapes)
+		default:
+			r.OK(c, p.fi.Decl.Pos(), "evaluated %s on texts with 1..%d %q-separated parts: exactly %v accepted, every other count returns a non-nil error without panicking; the code looks at part counts (len, strings.Count) only through comparisons with constants < %d, so larger counts behave like %d", p.name(), N, sp.sep, wantList, N, N)
+		}
+	}
+}
+
+// ---------------------------------------------------------------------------
+// texts that must be rejected
+
+type c10Reject struct {
+	construct string
+	texts     []c10Val
+	why       string // what makes the text malformed
+}
+
+func (p *c10Parser) rejects(extraLits []string) []c10Reject {
+	m := p.m
+	junk := c10Generic + "text"
+	hasVer := p.packed != "FeatureID"
+	T := func(parts ...interface{}) c10Val { return c10MkText(c10TextPieces(parts...)) }
+	var out []c10Reject
+	var badRef, badVer []c10Val
+	for _, k := range m.kindsOf(p.packed) {
+		kt := m.typeText(k) + c10Sep1
+		badRef = append(badRef, T(kt, junk), T(kt))
+		if hasVer {
+			badRef = append(badRef, T(kt, junk, c10Sep2, p.ver), T(kt, c10Sep2, p.ver), T(kt, junk, c10Sep2, p.marker))
+			badVer = append(badVer, T(kt, p.ref, c10Sep2, junk), T(kt, p.ref, c10Sep2))
+		}
+	}
+	out = append(out, c10Reject{"errors@" + p.name() + " reference not a number", badRef, "the reference part is empty or not a number"})
+	if hasVer {
+		out = append(out, c10Reject{"errors@" + p.name() + " version not a number", badVer, "the version part is empty or neither a number nor the no-version marker"})
+	}
+	tails := [][]c10Piece{c10TextPieces(p.ref)}
+	if hasVer {
+		tails = append(tails, c10TextPieces(p.ref, c10Sep2, p.ver))
+		if p.marker != "" {
+			tails = append(tails, c10TextPieces(p.ref, c10Sep2, p.marker))
+		}
+	}
+	withTails := func(kind string) []c10Val {
+		var ts []c10Val
+		for _, t := range tails {
+			ts = append(ts, T(kind, c10Sep1, t))
+		}
+		return ts
+	}
+	out = append(out, c10Reject{"unknown-kind@" + p.name() + " any other text", append(withTails(c10Generic+"kind"), withTails(c10Generic+"kind"+c10Sep2+c10Generic+"kind")...), "the kind is not one of the Type constants"})
+	out = append(out, c10Reject{"unknown-kind@" + p.name() + " empty", append(withTails(""), c10StrVal(""), c10StrVal(c10Sep1), c10StrVal(c10Sep2), T(c10Sep1, c10Sep2)), "the kind is empty"})
+	member := map[*c10Kind]bool{}
+	for _, k := range m.kindsOf(p.packed) {
+		member[k] = true
+	}
+	for _, k := range m.kinds {
+		if !member[k] {
+			out = append(out, c10Reject{"unknown-kind@" + p.name() + " kind=" + k.Name, withTails(m.typeText(k)), fmt.Sprintf("%s cannot hold a %s id", p.packed, k.Name)})
+		}
+	}
+	for _, lit := range extraLits {
+		var ts []c10Val
+		ts = append(ts, withTails(lit)...)
+		kt := m.typeText(p.firstKind()) + c10Sep1
+		if _, err := strconv.ParseInt(lit, 10, 64); err != nil {
+			ts = append(ts, T(kt, lit))
+			if hasVer && lit != p.marker {
+				ts = append(ts, T(kt, p.ref, c10Sep2, lit))
+			}
+		}
+		out = append(out, c10Reject{"literal@" + p.name() + " " + strconv.Quote(lit), ts, fmt.Sprintf("%q is a string constant the parser's code compares a text with; it is neither a kind of %s nor the no-version marker", lit, p.packed)})
+	}
+	return out
+}
+
+func (p *c10Parser) checkRejects() {
+	m, r := p.m, p.m.r
+	m.ev.resetScenario()
+	seenLit := map[string]bool{p.marker: true, "": true}
+	for _, k := range m.kinds {
+		seenLit[m.typeText(k)] = true
+	}
+	for _, a := range p.accepts() {
+		p.run(a.text) // only to collect the string constants compared on the accepting paths
+	}
+	work := p.rejects(nil)
+	for i := 0; i < len(work); i++ {
+		rj := work[i]
+		bad, unk := "", ""
+		for _, text := range rj.texts {
+			res := p.run(text)
+			switch {
+			case res.rejected:
+			case res.accepted:
+				bad = fmt.Sprintf("%s(%s) returns (%s, nil) although %s: malformed text yields an id instead of an error", p.name(), p.show(text), res.id, rj.why)
+			case res.panics:
+				bad = fmt.Sprintf("%s(%s): %s instead of returning an error", p.name(), p.show(text), res.problem)
+			default:
+				unk = fmt.Sprintf("%s(%s): %s", p.name(), p.show(text), res.problem)
+			}
+			if bad != "" {
+				break
+			}
+		}
+		switch {
+		case bad != "":
+			r.Bad(rj.construct, p.fi.Decl.Pos(), "%s", bad)
+		case unk != "":
+			r.Unknown(rj.construct, p.fi.Decl.Pos(), "%s", unk)
+		default:
+			var shown []string
+			for _, t := range rj.texts {
+				shown = append(shown, p.show(t))
+			}
+			r.OK(rj.construct, p.fi.Decl.Pos(), "%s returns a provably non-nil error, without panicking, for %s (%s)", p.name(), strings.Join(shown, ", "), rj.why)
+		}
+		// closure: string constants compared with some text during the runs so far
+		if i == len(work)-1 {
+			var extra []string
+			for lit := range m.ev.cmpStrs {
+				if !seenLit[lit] {
+					seenLit[lit] = true
+					extra = append(extra, lit)
+				}
+			}
+			sort.Strings(extra)
+			if len(extra) > 0 {
+				all := p.rejects(extra)
+				work = append(work, all[len(all)-len(extra):]...)
+			}
+		}
+	}
+	m.ev.resetScenario()
 }
 
 var _ = core.ModulePath
